@@ -96,7 +96,7 @@ var searchRoots = []searchRoot{
 	{"6k1/5ppp/8/8/8/8/8/R3K3 w Q - 0 1", nil, "backrank"},
 	{"6k1/5ppp/8/8/8/8/5PPP/3R2K1 w - - 0 1", nil, "backrank"},
 	{"4q1k1/5ppp/8/8/8/8/8/Q3R1K1 w - - 0 1", nil, "backrank tactical"}, // the most valuable capture (searched first) is mate
-	{"R3r1k1/5ppp/8/8/8/8/8/4K3 w - - 0 1", nil, "backrank tactical"},    // in check; the capture that answers it is mate
+	{"R3r1k1/5ppp/8/8/8/8/8/4K3 w - - 0 1", nil, "backrank tactical"},   // in check; the capture that answers it is mate
 	{"4k3/2n1p3/3p4/2P1P3/3P4/8/8/4K3 w - - 0 1", nil, "pawns"},
 	{"r3k3/1p6/2P5/8/8/5b2/4P3/R3K3 w Qq - 0 1", nil, "tactical"},
 	{"8/8/3k4/2pPp3/2P1P3/3K4/8/8 w - - 0 1", nil, "pawns net"},
